@@ -117,6 +117,8 @@ class Keys:
     def __call__(self, k):
         if isinstance(k, int) and not isinstance(k, bool):
             return k
+        if isinstance(k, list):
+            k = tuple(k)  # a tuple key (a JSON list in the stored program): ONE key, not a path
         return self.t.setdefault(k, KEY_BASE + len(self.t))
 
 
